@@ -1402,7 +1402,7 @@ def gen_C07(tier, seed):
             e = parts_of(i - J2000_NS) + (t1,)
             for t2 in (0, 1, 5):
                 out.append(f"convf {p3(e)} {t2}")
-            out.append(f"convf {p3(e)} {5 - t1}")      # ET <-> TDB (model = code only)
+            out.append(f"convf {p3(e)} {5 - t1}")      # ET <-> TDB: both closed forms in sequence
         for dd in (101, -101, 150, 1000, 10**6, 99, 100, 0):
             out.append(f"ordf {p2(parts_of(i))} {p2(parts_of(i + dd))} 0 2")
             out.append(f"ordf {p2(parts_of(i - J2000_NS))} {p2(parts_of(i - J2000_NS + dd))} 3 0")
